@@ -1,9 +1,107 @@
-(* C24 -- specification (1D, principal axes fixed): Hencky strain 1/2 ln C, Green-Lagrange strain (C-1)/2, power conjugacy,
-   chain rule for the tangent moduli.  Written independently of the code. *)
-From Coq Require Import Reals List.
+(* C24 -- specification, written independently of the code.
+   1D (principal axes fixed): Hencky strain 1/2 ln C, Green-Lagrange strain (C-1)/2, power conjugacy, chain rule for the tangent moduli.
+   2D / 3D: with the spectral decomposition C = sum_i l_i n_i (x) n_i and g = 1/2 ln, E_log = g(C) and
+     dE_log = Dg(C)[dC],  (Dg(C)[A])_ij   = g[l_i, l_j] a_ij                                      (Daleckii-Krein)
+     D2g(C)[A,B]_ij = sum_k g[l_i, l_j, l_k] (a_ik b_kj + b_ik a_kj)                               (second order)
+   in the eigenbasis (a_ij = n_i . A n_j), g[.,.] and g[.,.,.] the divided differences of g, confluent where eigenvalues coincide.
+   With C = 1 + 2 E_GL:  P = dE_log/dE_GL = 2 Dg(C),  S = T : P,  dS/dE_GL = P^T : Ks : P + 4 T : D2g(C). *)
+From Coq Require Import Reals List Arith.
 From Coquelicot Require Import Coquelicot.
+Import ListNotations.
 Local Open Scope R_scope.
 Definition hencky (F : R) : R := / 2 * ln (F * F).
 Definition green_lagrange (F : R) : R := (F * F - 1) / 2.
 (* dS_i/dE_GL_j for S_i = T_i / C_i, T a function of the Hencky strains with derivative Ks, E_log_j = 1/2 ln (1 + 2 E_GL_j) *)
 Definition material_moduli (Ks T Ci Cj : R) (diag : bool) : R := Ks / (Ci * Cj) - (if diag then 2 * T / (Ci * Ci) else 0).
+
+(* ---- vectors of tensor components (the library's notation: an orthonormal basis of symmetric tensors, so that the double contraction
+   of two symmetric tensors is the dot product of their component vectors) and matrices stored row major *)
+Fixpoint dotl (x y : list R) : R := match x, y with a :: x', b :: y' => a * b + dotl x' y' | _, _ => 0 end.
+Fixpoint rows (n : nat) (K : list R) (k : nat) : list (list R) := match k with O => [] | S k' => firstn n K :: rows n (skipn n K) k' end.
+Definition mvec (n : nat) (K v : list R) : list R := map (fun r => dotl r v) (rows n K n).
+Definition qf (n : nat) (K A B : list R) : R := dotl A (mvec n K B).
+Definition ten (n k : nat) (L : list R) : list R := firstn n (skipn (k * n) L).
+(* position of the tensor n_i (x) n_j + n_j (x) n_i in the lists of N / M tensors: (0,0) (1,1) (2,2) (0,1) (0,2) (1,2) in 3D; in 2D the
+   third eigenvector is e_z: N(0) N(1) N(2) N(3) = (0,0) (1,1) (2,2) (0,1), and the (0,2), (1,2) components of plane tensors vanish *)
+Definition idx3 (i j : nat) : nat :=
+  match i, j with
+  | O, O => 0 | S O, S O => 1 | S (S O), S (S O) => 2 | O, S O => 3 | S O, O => 3 | O, S (S O) => 4 | S (S O), O => 4 | _, _ => 5
+  end%nat.
+Definition comp3 (L V : list R) (i j : nat) : R := dotl V (ten 6 (idx3 i j) L) / 2.
+Definition comp2 (L V : list R) (i j : nat) : R :=
+  match i, j with
+  | O, O => dotl V (ten 4 0 L) / 2 | S O, S O => dotl V (ten 4 1 L) / 2 | S (S O), S (S O) => dotl V (ten 4 2 L) / 2
+  | O, S O => dotl V (ten 4 3 L) / 2 | S O, O => dotl V (ten 4 3 L) / 2 | _, _ => 0
+  end.
+(* ---- divided differences of g = 1/2 ln at the eigenvalues l (values e = g(l)), confluent on the classes of coinciding eigenvalues *)
+Definition sum3 (f : nat -> R) : R := f 0%nat + f 1%nat + f 2%nat.
+Definition dg (l : nat -> R) (i : nat) : R := 1 / (2 * l i).
+Definition g1 (l e : nat -> R) (i j : nat) : R := (e i - e j) / (l i - l j).
+Definition g1c (cls : nat -> nat) (l e : nat -> R) (i j : nat) : R :=
+  if (cls i =? cls j)%nat then dg l (cls i) else g1 l e (cls i) (cls j).
+Definition g2c (cls : nat -> nat) (l e : nat -> R) (i j k : nat) : R :=
+  let ci := cls i in let cj := cls j in let ck := cls k in
+  if (ci =? cj)%nat then (if (cj =? ck)%nat then - 1 / (4 * l ci * l ci) else (g1 l e ck ci - dg l ci) / (l ck - l ci))
+  else if (cj =? ck)%nat then (g1 l e ci cj - dg l cj) / (l ci - l cj)
+  else if (ci =? ck)%nat then (g1 l e cj ci - dg l ci) / (l cj - l ci)
+  else e ci / ((l ci - l cj) * (l ci - l ck)) + e cj / ((l cj - l ci) * (l cj - l ck)) + e ck / ((l ck - l ci) * (l ck - l cj)).
+(* bilinear forms of Dg(C) and of T : D2g(C) on symmetric tensors given by their eigenbasis components *)
+Definition dk1 (th : nat -> nat -> R) (a b : nat -> nat -> R) : R := sum3 (fun i => sum3 (fun j => th i j * a i j * b i j)).
+Definition dk2 (g2 : nat -> nat -> nat -> R) (t a b : nat -> nat -> R) : R :=
+  sum3 (fun p => sum3 (fun q => sum3 (fun r => g2 p q r * t p q * (a p r * b r q + b p r * a r q)))).
+Definition tab3 (x0 x1 x2 : R) (i : nat) : R := match i with O => x0 | S O => x1 | _ => x2 end.
+(* classes of eigenvalues *)
+Definition cls_distinct (i : nat) : nat := i.
+Definition cls_all (i : nat) : nat := 0%nat.
+Definition cls_pair (a b : nat) (i : nat) : nat := if (i =? b)%nat then a else i.   (* l_a = l_b, the third one apart *)
+(* ---- matrices, in the component basis, of the bilinear forms above.  Component a of the tensor M_ij = F n_i (x) F n_j + F n_j (x) F n_i
+   (N_ij when F = 1) in the lists of traced tensors *)
+Definition nthT (n : nat) (L : list R) (k a : nat) : R := nth (k * n + a) L 0.
+Definition Mc3 (L : list R) (i j a : nat) : R := nthT 6 L (idx3 i j) a.
+Definition Mc2 (L : list R) (i j a : nat) : R :=
+  match i, j with
+  | O, O => nthT 4 L 0 a | S O, S O => nthT 4 L 1 a | S (S O), S (S O) => nthT 4 L 2 a | O, S O => nthT 4 L 3 a | S O, O => nthT 4 L 3 a | _, _ => 0
+  end.
+(* matrix of (A, B) |-> 4 T : D2g(C)[A, B]: with a_ij = (A . M_ij)/2 it is sum_pqr g2(p,q,r) t_pq (M_pr (x) M_rq + M_rq (x) M_pr) *)
+Definition Gmat (Mc : nat -> nat -> nat -> R) (g2 : nat -> nat -> nat -> R) (t : nat -> nat -> R) (a b : nat) : R :=
+  sum3 (fun p => sum3 (fun q => sum3 (fun r => g2 p q r * t p q * (Mc p r a * Mc r q b + Mc r q a * Mc p r b)))).
+(* plane tensors: the eigenvector 2 is e_z, the components (0,2) and (1,2) vanish, only the in-plane divided differences and g''(l_2)/2 occur *)
+Definition g2plane (g2 : nat -> nat -> nat -> R) (l : nat -> R) (i j k : nat) : R :=
+  match i, j, k with
+  | S (S O), S (S O), S (S O) => - 1 / (4 * l 2%nat * l 2%nat)
+  | S (S O), _, _ => 0 | _, S (S O), _ => 0 | _, _, S (S O) => 0
+  | _, _, _ => g2 i j k
+  end.
+(* matrix of (A, B) |-> A : Dg(C)[B] = sum_ij g[l_i, l_j] a_ij b_ij with a_ij = (A . N_ij)/2: sum_ij g[l_i,l_j] N_ij (x) N_ij / 4 *)
+Definition Pmat (Nc : nat -> nat -> nat -> R) (th : nat -> nat -> R) (a b : nat) : R :=
+  sum3 (fun i => sum3 (fun j => th i j * Nc i j a * Nc i j b / 4)).
+Definition g1plane (th : nat -> nat -> R) (i j : nat) : R :=
+  match i, j with S (S O), S (S O) => th 2%nat 2%nat | S (S O), _ => 0 | _, S (S O) => 0 | _, _ => th i j end.
+Definition tsym3 (t : list R) (i j : nat) : R := nth (idx3 i j) t 0.
+Definition tsym2 (t : list R) (i j : nat) : R :=
+  match i, j with O, O => nth 0 t 0 | S O, S O => nth 1 t 0 | S (S O), S (S O) => nth 2 t 0 | O, S O => nth 3 t 0 | S O, O => nth 3 t 0 | _, _ => 0 end.
+Definition matrix (n : nat) (f : nat -> nat -> R) : list R := flat_map (fun a => map (fun b => f a b) (seq 0 n)) (seq 0 n).
+(* 4 p^T Ks p *)
+Definition ptKp (n : nat) (p Ks : list R) (a b : nat) : R :=
+  4 * fold_right (fun k s => fold_right (fun l s' => nth (k * n + a) p 0 * nth (k * n + l) Ks 0 * nth (l * n + b) p 0 + s') 0 (seq 0 n) + s) 0 (seq 0 n).
+(* ---- eigenbasis components of a symmetric tensor given by its component vector A (a_ij = n_i . A n_j), n_i the columns of m.
+   3D: A = [A11; A22; A33; sqrt2 A12; sqrt2 A13; sqrt2 A23], m row major 3x3.  2D: A = [A11; A22; A33; sqrt2 A12], m = [m00; m01; m10; m11]
+   and the third eigenvector is e_z *)
+Definition eig3 (m A : list R) (i j : nat) : R :=
+  let n k c := nth (3 * c + k) m 0 in
+  let a k := nth k A 0 in
+  a 0%nat * n i 0%nat * n j 0%nat + a 1%nat * n i 1%nat * n j 1%nat + a 2%nat * n i 2%nat * n j 2%nat
+  + a 3%nat / sqrt 2 * (n i 0%nat * n j 1%nat + n i 1%nat * n j 0%nat)
+  + a 4%nat / sqrt 2 * (n i 0%nat * n j 2%nat + n i 2%nat * n j 0%nat)
+  + a 5%nat / sqrt 2 * (n i 1%nat * n j 2%nat + n i 2%nat * n j 1%nat).
+Definition eig2 (m A : list R) (i j : nat) : R :=
+  let n k c := nth (2 * c + k) m 0 in
+  let a k := nth k A 0 in
+  match i, j with
+  | S (S O), S (S O) => a 2%nat
+  | S (S O), _ => 0 | _, S (S O) => 0
+  | _, _ => a 0%nat * n i 0%nat * n j 0%nat + a 1%nat * n i 1%nat * n j 1%nat + a 3%nat / sqrt 2 * (n i 0%nat * n j 1%nat + n i 1%nat * n j 0%nat)
+  end.
+Definition oget (o : option (list R)) : list R := match o with Some l => l | None => [] end.
+Definition slice (o n : nat) (l : list R) : list R := firstn n (skipn o l).
+Definition half_ln (x : R) : R := ln x / 2.
